@@ -891,6 +891,53 @@ func checkListCore(r *Reporter, p *Prog) {
 	if nHandleMethods < 7 {
 		r.Fail("handle/validated", "ds.list handle-taking methods", "-", fmt.Sprintf("expected at least 7 methods taking element handles, found %d", nHandleMethods))
 	}
+	// a handle stays inert after its element was removed (container/list: Remove clears e.list for
+	// good): the element linked in by an insertion is allocated by that insertion. An element taken
+	// from a pool or free list is still referred to by the handle of its previous life, which then
+	// reads the new value and removes or moves the new occupant.
+	if ins := roles.byRole["insert"]; ins == nil {
+		r.Unresolved("handle/fresh-element", "ds.list.insert", "insert primitive not found"+roles.why["insert"])
+	} else {
+		insFn, _ := info.Defs[ins.Name].(*types.Func)
+		nIns := 0
+		for _, fd := range p.AllFuncDecls("ds") {
+			if fd.Body == nil || fd == ins || recvTypeName(fd) != "list" || strings.HasSuffix(p.Fset.Position(fd.Pos()).Filename, "_test.go") {
+				continue
+			}
+			direct := false
+			ast.Inspect(fd.Body, func(n ast.Node) bool {
+				if c, ok := n.(*ast.CallExpr); ok {
+					if fn := staticCallee(info, c); fn != nil && fn.Origin() == insFn {
+						direct = true
+					}
+				}
+				return !direct
+			})
+			if !direct {
+				continue
+			}
+			f := newFuncCFG(p, info, fd.Body, funcKey("ds", fd))
+			for _, c := range f.Calls(func(c *ast.CallExpr) bool {
+				fn := staticCallee(info, c)
+				return fn != nil && fn.Origin() == insFn && len(c.Args) >= 1
+			}) {
+				cpt, found := f.PointOf(c)
+				if !found {
+					continue
+				}
+				nIns++
+				key := funcKey("ds", fd)
+				if why := notFreshlyAllocated(f, info, c.Args[0], cpt); why != "" {
+					r.Fail("handle/fresh-element", key, p.posStr(c.Pos()), "the element linked into the list must be allocated by this insertion: "+why+" - the handle of its previous life is live again and acts on the new occupant")
+				} else {
+					r.Pass("handle/fresh-element", key, p.posStr(c.Pos()), "the inserted element is a fresh allocation on every path")
+				}
+			}
+		}
+		if nIns == 0 {
+			r.Fail("handle/fresh-element", "ds.list", "-", "no caller of the insert primitive found (vacuous)")
+		}
+	}
 
 	// ---- (2) bookkeeping
 	type site struct{ fn, what string }
